@@ -249,7 +249,7 @@ func (obj SparseConstInt32Vector) ITERATOR() *SparseConstInt32VectorIterator {
   return &r
 }
 func (obj SparseConstInt32Vector) ITERATOR_FROM(i int) *SparseConstInt32VectorIterator {
-  k := 0
+  k := len(obj.indices)
   for j, idx := range obj.indices {
     if idx >= i {
       k = j
